@@ -164,9 +164,64 @@ def same_iteration(ctx):
                     w.shutdown()
 
 
+def unframeable(ctx):
+    """A request that can be constructed but not put into a frame (a payload that does not fit the 16-bit length field of
+    the link header; a partial command): `request()` raises - and leaves no waiter behind; a follow-up request for the same
+    command gets its own response."""
+    import hostworld
+    import streams
+    import zigpy.types as zt
+    import zigpy_zboss.types as t
+    from zigpy_zboss import commands as c
+    K = hostworld.kinds()
+    ieee = t.EUI64.convert("00:11:22:33:44:55:66:77")
+
+    def huge(n):
+        return c.APS.DataReq.Req(TSN=1, ParamLength=21, DataLength=n, DstAddr=ieee, ProfileID=260, ClusterId=6, DstEndpoint=1,
+                                 SrcEndpoint=1, Radius=0, DstAddrMode=zt.AddrMode.NWK, TxOptions=c.aps.TransmitOptions.NONE,
+                                 UseAlias=0, AliasSrcAddr=0, AliasSeqNbr=0, Payload=t.Payload(bytes(n)))
+    cases = [("payload-65520", "D", lambda: huge(65520)), ("payload-65535", "D", lambda: huge(65535)),
+             ("partial-request", "G", lambda: c.NcpConfig.GetShortAddr.Req(partial=True))]
+    for label, kind, mkreq in cases:
+        w = hostworld.HostWorld()
+        try:
+            n0 = w.n_listeners()
+            try:
+                req = mkreq()
+            except Exception:
+                continue                      # not even constructible on this tree: nothing to test
+            w.start(1, req, 3.0)
+            for _ in range(3):
+                if w.tasks[1].done():
+                    break
+                w.tick()
+            first = [e for e in w.log if e.startswith("D1=")]
+            n1 = w.n_listeners()
+            mk, Rsp, kw = K[kind]
+            w.start(2, mk(2), 3.0)
+            for _ in range(6):
+                w.rx(streams.ack(priv.pack_seq(w.p)))
+            w.rx(hostworld.rsp_bytes(Rsp, 2, 1, **kw))
+            second = [e for e in w.log if e.startswith("D2=")]
+            inp = dict(request=label)
+            ctx.case(("unframeable", label), nontrivial=True, sample=dict(inp, first=first, listeners_left=n1 - n0, follow_up=second))
+            ctx.count("unframeable-request")
+            if first and first[0] in ("D1=RET", "D1=RET-NONE"):
+                continue                      # it could be framed after all
+            if n1 != n0:
+                ctx.counterexample("listener-left-by-failed-request", inp, 0, n1 - n0,
+                                   "a request that failed before anything was sent left a response waiter registered")
+            elif second != ["D2=RET"]:
+                ctx.counterexample("follow-up-starved", inp, ["D2=RET"], second,
+                                   "the follow-up request for the same command did not receive its own response")
+        finally:
+            w.shutdown()
+
+
 def run(ctx):
     unstarted(ctx)
     same_iteration(ctx)
+    unframeable(ctx)
     ctx.rule = ("(a) systematic: for 4 request kinds x 4 companions x 4 progress points x {cancel, expiry}: end the request, "
                 "inject a late response, issue a follow-up request for the same command and answer it; (b) random schedules "
                 "biased to cancel / expiry / close / duplicate responses; non-trivial = >= 2 requests and >= 4 event kinds")
